@@ -89,7 +89,22 @@ class Canon:
         return ("iv", self.keys[key])
 
     # ---- n-th element / number of elements of an iterator -------------------------------
+    def storage_source(self, it):
+        """`m.data.into()` / `Vec::from(m.data)` — the owned storage of a nalgebra matrix handed on as a Vec: the
+        elements of m in column-major order"""
+        it0 = strip_mut(it)
+        if it0[0] == "call" and len(it0) == 5 and last(it0[1]) in ("into", "from", "into_iter") and len(it0[3]) == 1:
+            a = strip_mut(it0[3][0])
+            if last(it0[1]) == "into_iter":
+                return self.storage_source(a)
+            if a[0] == "field" and a[2] == "data":
+                return a[1]
+        return None
+
     def nth(self, it, i):
+        src_ = self.storage_source(it)
+        if src_ is not None:
+            return self.mk_at(self.container(src_), (i,))
         it = base_iter(it)
         if it[0] == "agg" and it[1].endswith("ops::Range"):
             d = dict(it[3])
@@ -138,13 +153,16 @@ class Canon:
         return ("nth", self.canon(it), i)
 
     def extent_of(self, it):
+        src_ = self.storage_source(it)
+        if src_ is not None:
+            return self.norm_extent(("len", self.container(src_)))
         it = base_iter(it)
         if it[0] == "agg" and it[1].endswith("ops::Range"):
             d = dict(it[3])
             st, en = self.canon(d.get("start")), self.canon(d.get("end"))
             if st == ("const", "usize", 0):
                 return self.norm_extent(en)
-            return ("bin", "Sub", self.norm_extent(en), st)
+            return ("bin", "Sub", self.norm_extent(en), self.norm_extent(st))
         if it[0] == "call" and it[3]:
             n = last(it[1])
             a0 = it[3][0]
@@ -162,7 +180,7 @@ class Canon:
                 return self.mk_min(self.extent_of(a0), self.norm_extent(self.canon(it[3][1])))
             if n == "skip" and len(it[3]) == 2:
                 e = self.extent_of(a0)
-                return None if e is None else ("bin", "Sub", e, self.canon(it[3][1]))
+                return None if e is None else ("bin", "Sub", e, self.norm_extent(self.canon(it[3][1])))
             if n in COL_ITERS:
                 return self.norm_extent(("ncols", self.container(a0)))
             if n in ROW_ITERS:
@@ -192,6 +210,13 @@ class Canon:
             t = (last(t[1]), self.container(t[3][0]))
         if t[0] == "call" and last(t[1]) in ("min",) and len(t[3]) == 2:
             return self.mk_min(self.norm_extent(self.canon(t[3][0])), self.norm_extent(self.canon(t[3][1])))
+        if t[0] == "bin" and t[1] in ("Add", "Sub", "Mul") and len(t) == 4:
+            a, b = self.norm_extent(t[2]), self.norm_extent(t[3])
+            if a is not None and b is not None and a[0] != "min" and b[0] != "min":
+                return ("bin", t[1], a, b)
+            return t
+        if t[0] == "min":
+            return ("min", tuple(sorted(set(self.norm_extent(x) for x in t[1]), key=repr))) if len(t[1]) > 1 else t
         if t[0] in ("nrows", "ncols", "len"):
             c = t[1]
             if c[0] == "col" and t[0] in ("nrows", "len"):
@@ -727,7 +752,8 @@ def _nonneg_forms(rels):
 
 
 def _is_nonneg_const(d):
-    return all(k is None for k in d) and d.get(None, 0) >= 0
+    """the linear form is non-negative: every coefficient is (its atoms are unsigned quantities — sizes, counters)"""
+    return all(v >= 0 for v in d.values())
 
 
 def _minus(d, f):
@@ -812,6 +838,96 @@ def chain_of(e, F):
     return out
 
 
+def jump_threads(ev, env):
+    """{(pred, merge block): (target, chain blocks)}: a test of an enum value whose variant is already decided by the way
+    the merge block before it was entered — the `?` after a spliced-in helper: entered from the helper's `Err(..)` return
+    the test can only take the Break edge, from its `Ok(..)` return only Continue. Path-insensitive reachability would
+    combine the helper's failing exit with the caller's continuing edge."""
+    from terms import variant_of
+    body = env.body
+    memo = body.__dict__.setdefault("_jump_threads", {})
+    mk = (tuple(sorted((k, repr(v)) for k, v in env.args.items())), env.path)
+    if mk in memo:
+        return memo[mk]
+    memo[mk] = {}
+    live = body.live_blocks()
+    threads = {}
+    for (S, si, pk, variants) in body.discr_switches():
+        if S not in live:
+            continue
+        chain, cur = [S], S
+        while len(body.pred(cur)) == 1 and len(chain) < 8:
+            p_ = body.pred(cur)[0]
+            if len(body.succ(p_)) != 1 or p_ == S:
+                break
+            chain.append(p_)
+            cur = p_
+        M = cur
+        preds = [p_ for p_ in body.pred(M) if p_ in live]
+        if len(preds) < 2:
+            continue
+        term = body.blocks[S]["term"]
+        names = dict(variants)
+        by_name = {n: v for v, n in variants}
+        tg = dict(term["targets"])
+        for p_ in preds:
+            try:
+                e2 = Env(body, env.args, env.depth, env.caps, env.path)
+                e2.pred_filter = (lambda a, b_, p_=p_, M=M: b_ != M or a == p_)
+                v = ev.lookup(e2, pk, (S, si))
+            except RecursionError:
+                continue
+            vn = variant_of(v, set(names.values()))
+            if vn is None or vn not in by_name:
+                continue
+            T = tg.get(by_name[vn], term["otherwise"])
+            threads[(p_, M)] = (T, tuple(chain))
+    memo[mk] = threads
+    return threads
+
+
+def reachable_threaded(body, start, avoid, threads):
+    """Body.reachable with decided tests followed only along their decided edge"""
+    avoid = set(avoid)
+    if start in avoid:
+        return set()
+    seen = {start}
+    extra = set()      # blocks of decided tests passed on a thread (not explored from there in general)
+    st = [start]
+    while st:
+        b = st.pop()
+        for s_ in body.succ(b):
+            th = threads.get((b, s_))
+            if th is not None:
+                T, chain = th
+                if any(c in avoid for c in chain):
+                    continue
+                extra.update(chain)
+                s_ = T
+            if s_ in seen or s_ in avoid:
+                continue
+            seen.add(s_)
+            st.append(s_)
+    return seen | extra
+
+
+def must_pass_threaded(body, frm, to_set, through, threads):
+    return not (reachable_threaded(body, frm, through, threads) & set(to_set))
+
+
+def chain_envs(e):
+    """the environments of the inlining chain of an effect, root first (None where unknown)"""
+    envs = []
+    x = e.env
+    while x is not None:
+        envs.append(x)
+        x = getattr(x, "parent", None)
+    envs.reverse()
+    if len(envs) != len(e.env.path) + 1:
+        return [None] * len(e.env.path) + [e.env]
+    return envs
+
+
 def write_chain(cn, w):
     """the inlining chain of a write; for a column written element by element the chain ends at the driver of the
     element iteration (what happens inside that iteration is decided separately, see elementwise_column_writes)"""
@@ -834,6 +950,16 @@ def written_each_iteration(cn, w, iv, alts=()):
     if chain is None or iv[0] != "iv":
         return False, "write site not resolved"
     alt_chains = [c for c in (write_chain(cn, a) for a in alts) if c]
+    envs_ = chain_envs(e)
+
+    def threads_at(level):
+        env_ = envs_[level] if level < len(envs_) else None
+        if env_ is None or env_.body is not chain[level][0]:
+            return {}
+        try:
+            return jump_threads(cn.ev, env_)
+        except RecursionError:
+            return {}
 
     def blocks_at(level):
         """the blocks, in the body at `level` of the chain, of this write and of its alternatives that reach that body
@@ -853,7 +979,7 @@ def written_each_iteration(cn, w, iv, alts=()):
         # every success path
         for lv in range(1, len(chain)):
             body = chain[lv][0]
-            if not body.must_pass(0, success_returns(body), blocks_at(lv)):
+            if not must_pass_threaded(body, 0, success_returns(body), blocks_at(lv), threads_at(lv)):
                 return False, "helper `%s` can return successfully without performing the write" % body.key[-60:]
         return True, ""
     if key is None or key[0] != "drv":
@@ -881,7 +1007,7 @@ def written_each_iteration(cn, w, iv, alts=()):
                     entry = yes[0][1]
         if entry is None:
             return False, "loop test not found"
-        if h in body.reachable(entry, avoid=blocks_at(level)):
+        if h in reachable_threaded(body, entry, blocks_at(level), threads_at(level)):
             return False, "a path through the loop body returns to the loop header without performing the write"
     else:
         # a closure driven by an iterator adapter: (closure key, caller key, block, call path)
@@ -890,12 +1016,12 @@ def written_each_iteration(cn, w, iv, alts=()):
         if level >= len(chain) or chain[level][0].key != clo_key:
             return False, "the write is not inside the closure driven by the iteration"
         body, blk = chain[level]
-        if not body.must_pass(0, success_returns(body), blocks_at(level)):
+        if not must_pass_threaded(body, 0, success_returns(body), blocks_at(level), threads_at(level)):
             return False, "a path through the per-element closure reports success without performing the write"
     # deeper levels: helpers must write on all their success paths
     for lv in range(level + 1, len(chain)):
         body = chain[lv][0]
-        if not body.must_pass(0, success_returns(body), blocks_at(lv)):
+        if not must_pass_threaded(body, 0, success_returns(body), blocks_at(lv), threads_at(lv)):
             return False, "helper `%s` can return successfully without performing the write" % body.key[-60:]
     return True, ""
 
